@@ -37,7 +37,7 @@ class Plan:
                  full_index: bool = False, omit_index: bool = False, xfilter: str = "none",
                  ofilter: bool = False, containers_in_table: bool = True, order_seed: int = 0,
                  trailer_same_line: bool = False, f_for_hidden: bool = True, first_pad: int = 0,
-                 self_prev: bool = False):
+                 self_prev: bool = False, index_overshoot: int = 0, self_stm: bool = False):
         self.form = form                    # table | stream | hybrid
         self.groups = groups or []          # object-stream groups (lists of objnums), stream/hybrid only
         self.w = w                          # None = minimal widths
@@ -52,6 +52,8 @@ class Plan:
         self.trailer_same_line = trailer_same_line
         self.f_for_hidden = f_for_hidden    # hybrid: hidden objects appear as `f` in the table
         self.first_pad = first_pad          # extra white space inside object streams before /First
+        self.self_stm = self_stm            # DAMAGED (tie only): the first object stream is listed as stored in itself
+        self.index_overshoot = index_overshoot   # /Index promises this many rows more than the stream holds
         self.self_prev = self_prev          # oldest revision only: /Prev pointing at its own section (circular chain)
         self.fill_gaps: List[int] = []      # numbers to list as free (filled by the generator)
 
@@ -178,6 +180,8 @@ def write_history(revs: List[Rev], plans: List[Plan], eol: bytes = b"\n", entry_
                     rows[n] = (1, p, g)
                 for n, (c, i) in packed.items():
                     rows[n] = (2, c, i)
+                if plan.self_stm and containers:
+                    rows[containers[0][0]] = (2, containers[0][0], 0)
             else:
                 for n, (c, i) in packed.items():
                     rows[n] = (2, c, i)
@@ -200,6 +204,8 @@ def write_history(revs: List[Rev], plans: List[Plan], eol: bytes = b"\n", entry_
             index: Optional[List[int]] = [x for r in rr for x in r]
             if plan.full_index and plan.omit_index and rr == [(0, size)]:
                 index = None
+            elif plan.index_overshoot and index:
+                index[-1] += plan.index_overshoot
             types = {t for (t, _, _) in rows.values()}
             need = (0 if types == {1} else 1,
                     max(1, max(need_bytes(f2) for (_, f2, _) in rows.values())),
